@@ -21,7 +21,7 @@ EXHAUSTIVE = {"quick": True, "thorough": True}
 RULE = (
     "totality: every string of length <= N over {a,space,tab,',\",\\,-} is tokenised under a step budget "
     "(sys.monitoring PY_START events in the tokenizer file, budget 20*len+50) and a budget of 10 s of process CPU time per call (virtual interval timer; catches "
-    "run-away pattern matching that executes no Python-level step); inverse: token lists of 0-4 tokens x 0-5 "
+    "run-away pattern matching that executes no Python-level step); inverse: token lists of 0-4 tokens (every eighth list with a long bare word of up to 80 characters carrying a quoted value, as in --name='a b') x 0-5 "
     "characters over {a,b,space,tab,newline,',\",\\,-,=,e-acute,CJK} that the scheme can express, each token rendered "
     "bare/single/double quoted, joined by varying whitespace runs, must tokenise back exactly; quote-free strings must "
     "equal str.split(); C01-generated lines are parsed (and resolved through an application) from the quoted string and "
@@ -90,6 +90,13 @@ class CpuBudgetExceeded(BaseException):
     pass
 
 
+CPU_VIOLATIONS = [0]
+
+
+class StopShard(Exception):
+    pass
+
+
 CPU_BUDGET_S = 10.0  # process CPU time (ITIMER_VIRTUAL), not wall-clock: the machine's load does not count
 
 
@@ -116,6 +123,9 @@ def tokenize(sh, mon, StringArgs, s):
     except CpuBudgetExceeded:
         mon.disarm(len(s))
         sh.violate("termination", case, "tokenising a string of length %d used more than %.0f s of CPU time (strings of this length take well under a millisecond)" % (len(s), CPU_BUDGET_S))
+        CPU_VIOLATIONS[0] += 1
+        if CPU_VIOLATIONS[0] >= 3:
+            raise StopShard("three strings exceeded the CPU budget; the rest of this shard was not run")
         return None
     except StepBudgetExceeded:
         mon.disarm(len(s))
@@ -161,8 +171,15 @@ def check_string(sh, mon, StringArgs, s):
         sh.violate("whitespace-split", {"kind": "string", "string": s}, "tokens %r != split %r" % (toks, s.split()))
 
 
+def render_token(t, st):
+    if isinstance(st, (list, tuple)):
+        # ("prefixed", k, quote style): the first k characters bare, the rest quoted - the shell spelling --name='a b'
+        return t[:st[1]] + quoting.render(t[st[1]:], st[2])
+    return quoting.render(t, st)
+
+
 def check_tokens(sh, mon, StringArgs, toks, styles, seps, lead, trail):
-    parts = [quoting.render(t, st) for t, st in zip(toks, styles)]
+    parts = [render_token(t, st) for t, st in zip(toks, styles)]
     s = lead
     for i, p in enumerate(parts):
         if i:
@@ -238,6 +255,14 @@ def run(sh, spec):
             for i in range(spec["n"]):
                 toks = [gen_token(rng) for _ in range(rng.randint(0, 4))]
                 styles = [styles_for(rng, t) for t in toks]
+                if i % 8 == 0:
+                    # a long option name (or plain word) with a quoted value attached: --some-long-name='a b'
+                    name = rng.choice(["--", "-", ""]) + "".join(rng.choice("abcxyz-_.") for _ in range(rng.choice([3, 12, 30, 45, 80]))) + rng.choice(["=", "", ":"])
+                    value = gen_token(rng, 8)
+                    k = rng.randint(0, len(toks))
+                    toks.insert(k, name + value)
+                    styles.insert(k, ["prefixed", len(name), rng.choice(["single", "double"])])
+                    sh.count("prefixed_tokens")
                 seps = [rng.choice(SEPS) for _ in range(4)]
                 lead = rng.choice(["", "", " ", "\t "])
                 trail = rng.choice(["", "", " ", "\n"])
@@ -260,6 +285,8 @@ def run(sh, spec):
                     sh.count("whitespace_strings")
         sh.count("tokenizer_steps", mon.total)
         sh.note("max_steps_per_char", mon.max_ratio)
+    except StopShard as e:
+        sh.note("stopped_early", str(e))
     finally:
         mon.close()
 
